@@ -187,8 +187,8 @@ def recordsSuccess (v : Variant) : StreamEnd → Bool
 /-- How a translated request ends, as far as `pr.hadError` is concerned. -/
 inductive TranslatorEnd where
   | answered (status : Nat)        -- backend answered `status`; >= 400 goes through handle*BackendError (ErrorWriter.WriteError directly)
-  | proxyErrorBeforeStart          -- proxy error, nothing written yet: `writeTranslatorError` (sets hadError), buffered route
-  | proxyErrorAfterStart           -- streaming route: proxy failed after the SSE response was started (or produced 200/empty)
+  | proxyErrorBeforeStart          -- proxy error before any backend answer (buffered route: any proxy error): `writeTranslatorError` sets hadError
+  | proxyErrorAfterStart           -- streaming route: the proxy failed after a backend's answer had started the SSE response
   | rejected                       -- bad request / no endpoints: `writeTranslatorError`
 deriving Repr, DecidableEq, Inhabited
 
